@@ -81,6 +81,19 @@ Definition a_sub_raw (a b : assets) : assets := merge sub_entry a b.
 Definition a_add (a b : assets) : assets := strip (a_add_raw a b).
 Definition a_sub (a b : assets) : assets := strip (a_sub_raw a b).
 
+(** saturating_add / saturating_sub (the running totals of input selection): entry-wise, every
+    result clamped to the i128 range, zero entries removed. *)
+Definition sat (z : Z) : Z := Z.max i128_min (Z.min i128_max z).
+
+Definition a_sat_add (a b : assets) : assets :=
+  strip (union_with (fun x y => Some (sat (x + y))) a b).
+Definition sat_sub_entry (x y : option Z) : option Z :=
+  match x, y with
+  | None, None => None
+  | _, _ => Some (sat (default 0 x - default 0 y))
+  end.
+Definition a_sat_sub (a b : assets) : assets := strip (merge sat_sub_entry a b).
+
 (** No intermediate result leaves i128 (dev builds panic, release wraps). *)
 Definition all_in_i128 (a : assets) : bool :=
   forallb (fun kv => in_i128 kv.2) (map_to_list a).
